@@ -245,24 +245,33 @@ func c02Loads(c hx.Case) [][2]string {
 	return out
 }
 
-// runC02 makes the loads of the case one after the other on ONE Loader
+// runC02 makes the loads of the case one after the other on ONE Loader. Long form {epochs: [{files, loads}, …]}: the
+// store is replaced between two epochs (the files were edited), the Loader stays the same.
 func runC02(c hx.Case) any {
 	files := map[string][]byte{}
 	virtual := map[string][]byte{}
-	short := len(jlist(c["loads"])) == 0
-	for i, f := range jlist(c["files"]) {
-		fm, _ := f.(map[string]any)
-		b, _ := json.Marshal(fm["json"])
-		key := c02KeyStr(jstr(fm, "path"))
-		if jbool(fm, "virtual") || (short && i == 0 && jstr(c, "entry") == "data") {
-			// a root document given as data: it has no location and is not part of the store
-			virtual[key] = b
-			if short {
-				virtual[""] = b
-			}
-			continue
+	c02SetStore := func(ep map[string]any) {
+		for k := range files {
+			delete(files, k)
 		}
-		files[key] = b
+		for k := range virtual {
+			delete(virtual, k)
+		}
+		short := len(jlist(ep["loads"])) == 0
+		for i, f := range jlist(ep["files"]) {
+			fm, _ := f.(map[string]any)
+			b, _ := json.Marshal(fm["json"])
+			key := c02KeyStr(jstr(fm, "path"))
+			if jbool(fm, "virtual") || (short && i == 0 && jstr(ep, "entry") == "data") {
+				// a root document given as data: it has no location and is not part of the store
+				virtual[key] = b
+				if short {
+					virtual[""] = b
+				}
+				continue
+			}
+			files[key] = b
+		}
 	}
 	reads := 0
 	l := openapi3.NewLoader()
@@ -278,42 +287,54 @@ func runC02(c hx.Case) any {
 		}
 		return nil, fmt.Errorf("no such file: %s", u)
 	}
+	epochs := []map[string]any{}
+	for _, e := range jlist(c["epochs"]) {
+		if em, ok := e.(map[string]any); ok {
+			epochs = append(epochs, em)
+		}
+	}
+	if len(epochs) == 0 {
+		epochs = append(epochs, map[string]any(c))
+	}
 	loads := []any{}
-	for _, ld := range c02Loads(c) {
-		entry, root := ld[0], ld[1]
-		var doc *openapi3.T
-		var err error
-		switch entry {
-		case "file":
-			doc, err = l.LoadFromFile(root)
-		case "path":
-			u, _ := url.Parse(root)
-			doc, err = l.LoadFromDataWithPath(files[c02KeyStr(root)], u)
-		case "uri":
-			u, _ := url.Parse(root)
-			doc, err = l.LoadFromURI(u)
-		default:
-			d, ok := virtual[c02KeyStr(root)]
-			if !ok {
-				d = virtual[""]
+	for _, ep := range epochs {
+		c02SetStore(ep)
+		for _, ld := range c02Loads(hx.Case(ep)) {
+			entry, root := ld[0], ld[1]
+			var doc *openapi3.T
+			var err error
+			switch entry {
+			case "file":
+				doc, err = l.LoadFromFile(root)
+			case "path":
+				u, _ := url.Parse(root)
+				doc, err = l.LoadFromDataWithPath(files[c02KeyStr(root)], u)
+			case "uri":
+				u, _ := url.Parse(root)
+				doc, err = l.LoadFromURI(u)
+			default:
+				d, ok := virtual[c02KeyStr(root)]
+				if !ok {
+					d = virtual[""]
+				}
+				doc, err = l.LoadFromData(d)
 			}
-			doc, err = l.LoadFromData(d)
-		}
-		if err != nil {
-			loads = append(loads, map[string]any{"outcome": "err", "error": err.Error(), "refs": map[string]any{}})
-			continue
-		}
-		o := &c02Obs{refs: map[string]map[string]any{}}
-		o.visit(reflect.ValueOf(doc), map[uintptr]bool{})
-		refs := map[string]any{}
-		for rid, vs := range o.refs {
-			lst := []any{}
-			for _, k := range c02Sorted(vs) {
-				lst = append(lst, vs[k])
+			if err != nil {
+				loads = append(loads, map[string]any{"outcome": "err", "error": err.Error(), "refs": map[string]any{}})
+				continue
 			}
-			refs[rid] = lst
+			o := &c02Obs{refs: map[string]map[string]any{}}
+			o.visit(reflect.ValueOf(doc), map[uintptr]bool{})
+			refs := map[string]any{}
+			for rid, vs := range o.refs {
+				lst := []any{}
+				for _, k := range c02Sorted(vs) {
+					lst = append(lst, vs[k])
+				}
+				refs[rid] = lst
+			}
+			loads = append(loads, map[string]any{"outcome": "ok", "refs": refs})
 		}
-		loads = append(loads, map[string]any{"outcome": "ok", "refs": refs})
 	}
 	last, _ := loads[len(loads)-1].(map[string]any)
 	return map[string]any{"outcome": last["outcome"], "error": last["error"], "refs": last["refs"], "loads": loads}
@@ -1037,6 +1058,7 @@ func c02Shapes(emit func(hx.Case)) {
 	}
 	c02ShapesRound3(emit)
 	c02ShapesRound4(emit)
+	c02ShapesRound5(emit)
 }
 
 // round 4: histories on one Loader, null members, documents that share a path on two hosts
@@ -1231,6 +1253,156 @@ func c02ShapesRound4(emit func(hx.Case)) {
 }
 
 // shapes added when the model followed the repaired loader (a04fe6c, 9b25d89, f972c33, cbb0d05)
+// ---------------------------------------------------------------- round 5: a store that changes between the loads
+
+// c02EpochCase: the layouts are the epochs of one history on ONE Loader (each layout carries its own loads)
+func c02EpochCase(ls ...*c02Layout) hx.Case {
+	eps := []any{}
+	for _, l := range ls {
+		c := l.toCase()
+		eps = append(eps, map[string]any{"files": c["files"], "loads": c["loads"]})
+	}
+	return hx.Case{"epochs": eps}
+}
+
+// c02Rev: a revision of one document. Pet refers (in the first child slot of its kind) to the component Owner, Cat
+// refers to Pet; Owner exists only in a fixed revision, so in a broken one the reference dangles BELOW a referenced
+// component. `id` tags the values: two fixed revisions with different ids resolve to different objects.
+func c02Rev(kind string, fixed bool, id string) jm {
+	d := c02Doc()
+	var back *c02Slot
+	for si := range c02Slots {
+		if c02Slots[si].parent == kind {
+			back = &c02Slots[si]
+			break
+		}
+	}
+	pet := c02Val(kind, "Pet"+id)
+	if back != nil {
+		c02Set2(pet, *back, c02Ref(c02Ptr(back.child, c02TopName(back.child, "Owner")), "owner"))
+		if fixed {
+			c02Put(d, back.child, c02TopName(back.child, "Owner"), c02Val(back.child, "Owner"+id))
+		}
+	}
+	c02Put(d, kind, c02TopName(kind, "Pet"), pet)
+	c02Put(d, kind, c02TopName(kind, "Cat"), c02Ref(c02Ptr(kind, c02TopName(kind, "Pet")), "cat"))
+	return d
+}
+
+func c02ShapesRound5(emit func(hx.Case)) {
+	base := func(entry string) string {
+		if entry == "uri" {
+			return "http://h.example/api"
+		}
+		return "/r/a"
+	}
+	empty := func() *c02Layout {
+		l := newLayout("file", "/r/a/unused.json")
+		delete(l.files, "/r/a/unused.json")
+		l.order = nil
+		return l
+	}
+	entries := []string{"file", "path", "uri"}
+	// the revisions an edit goes through: (fixed?, id) per epoch
+	type revn struct {
+		fixed bool
+		id    string
+	}
+	edits := [][]revn{
+		{{false, "1"}, {true, "1"}},              // repaired: must load now
+		{{true, "1"}, {false, "1"}},              // broken by the edit: must FAIL now (nothing of the first load may survive)
+		{{true, "1"}, {true, "2"}},               // changed: must resolve to the NEW objects
+		{{false, "1"}, {true, "2"}, {true, "3"}}, // three epochs
+	}
+	kinds := []string{"schema", "response", "parameter", "requestBody", "pathItem", "callback", "header"}
+	for ki, kind := range kinds {
+		for i, e1 := range entries {
+			for j, e2 := range entries {
+				if ki > 0 && (i+j+ki)%3 != 0 {
+					continue // every pair of entry points for schemas, a third of them for the other kinds
+				}
+				for _, ed := range edits {
+					// (A) the root document itself is edited in place between the loads
+					var eps []*c02Layout
+					for n, r := range ed {
+						e := e1
+						if n%2 == 1 {
+							e = e2
+						}
+						l := empty()
+						p := base(e) + "/root.json"
+						l.raw(p, c02Rev(kind, r.fixed, r.id))
+						l.loads = [][2]string{{e, p}}
+						eps = append(eps, l)
+					}
+					emit(c02EpochCase(eps...))
+				}
+			}
+		}
+		// (B) the root stays, an external document it refers to (by fragment) is edited
+		for _, e := range entries {
+			for ei, ed := range edits {
+				var eps []*c02Layout
+				for n, r := range ed {
+					l := empty()
+					p := base(e) + "/root.json"
+					root := c02Doc()
+					c02Put(root, kind, c02TopName(kind, "R"), c02Ref("x.json"+c02Ptr(kind, c02TopName(kind, "Cat")), "r"))
+					l.raw(p, root)
+					l.raw(base(e)+"/x.json", c02Rev(kind, r.fixed, r.id))
+					l.loads = [][2]string{{e, p}}
+					if ei == 2 && n == 0 {
+						l.loads = append(l.loads, [2]string{"path", p}) // two loads in the first epoch, then the edit
+					}
+					eps = append(eps, l)
+				}
+				emit(c02EpochCase(eps...))
+			}
+		}
+		// (C) the root stays, a whole-file element it refers to is replaced by another value / is removed
+		// (a bare element file has no kind of its own: a value of another kind is not a wrong-kind target there)
+		if kind != "pathItem" && kind != "callback" {
+			for _, e := range []string{"file", "uri"} {
+				for _, second := range []jm{c02Val(kind, "E2"), nil} {
+					var eps []*c02Layout
+					for n := 0; n < 2; n++ {
+						l := empty()
+						p := base(e) + "/root.json"
+						root := c02Doc()
+						c02Put(root, kind, c02TopName(kind, "R"), c02Ref("elem.json", "r"))
+						l.raw(p, root)
+						if n == 0 {
+							l.raw(base(e)+"/elem.json", c02Val(kind, "E1"))
+						} else if second != nil {
+							l.raw(base(e)+"/elem.json", second)
+						}
+						l.loads = [][2]string{{e, p}}
+						eps = append(eps, l)
+					}
+					emit(c02EpochCase(eps...))
+				}
+			}
+		}
+		// (D) the external document disappears / appears
+		for _, appears := range []bool{true, false} {
+			var eps []*c02Layout
+			for n := 0; n < 2; n++ {
+				l := empty()
+				p := "/r/a/root.json"
+				root := c02Doc()
+				c02Put(root, kind, c02TopName(kind, "R"), c02Ref("../b/x.json"+c02Ptr(kind, c02TopName(kind, "Pet")), "r"))
+				l.raw(p, root)
+				if (n == 1) == appears {
+					l.raw("/r/b/x.json", c02Rev(kind, true, "1"))
+				}
+				l.loads = [][2]string{{"file", p}}
+				eps = append(eps, l)
+			}
+			emit(c02EpochCase(eps...))
+		}
+	}
+}
+
 func c02ShapesRound3(emit func(hx.Case)) {
 	root := "/r/a/root.json"
 	// (a) kind clash: a text in progress as kind P met again as kind C in a child slot of the target — in the same
@@ -1531,6 +1703,17 @@ func c02Clone(v any) any {
 
 func shrinkC02(c hx.Case) []hx.Case {
 	var out []hx.Case
+	if eps := jlist(c["epochs"]); len(eps) > 0 {
+		// a changing-store history: a shorter one (the documents of an epoch are not edited)
+		if len(eps) > 1 {
+			for i := range eps {
+				x := cloneCase(c)
+				x["epochs"] = append(append([]any{}, eps[:i]...), eps[i+1:]...)
+				out = append(out, x)
+			}
+		}
+		return out
+	}
 	files := jlist(c["files"])
 	isRoot := map[string]bool{}
 	for _, ld := range c02Loads(c) {
